@@ -155,6 +155,8 @@ class Engine:
         self.max_steps = o.get('max_steps', 2_000_000)
         self.max_depth = o.get('max_depth', 400)
         self.query_timeout_ms = o.get('query_timeout_ms', 60_000)
+        self.fast_timeout_ms = int(os.environ.get('MIRSYM_FAST_MS', o.get('fast_timeout_ms', 500)))
+        self.model_solver = None
         self.solver = z3.Solver()
         self.solver.set('timeout', self.query_timeout_ms)
         self.pc = []
@@ -179,6 +181,7 @@ class Engine:
         self.sem = None
         self.out = None
         self.out_dir = None
+        self.out_path_dir = None
         self.models = {}
         self.rt = {}
         self.path_counter = None
@@ -203,8 +206,24 @@ class Engine:
 
     # ------------------------------------------------------------------ solver
     def check_sat(self, c, kind='q_branch'):
+        """decide pc /\ c.  First the incremental solver under a short cap; if that does not answer,
+        a fresh non-incremental solver (z3's tactic pipeline: simplify + bit-blast + SAT) under the full
+        cap.  `unknown` after both is Inconclusive, never an answer."""
         t = time.time()
+        self.solver.set('timeout', self.fast_timeout_ms)
         r = self.solver.check(c) if c is not None else self.solver.check()
+        self.model_solver = self.solver
+        if r == z3.unknown:
+            self.stats['fallback'] = self.stats.get('fallback', 0) + 1
+            s2 = z3.Solver()
+            s2.set('timeout', self.query_timeout_ms)
+            # NOT self.solver.assertions(): after a check() that timed out z3 5.1 can hand back a
+            # preprocessed assertion set (observed: models of the copy violate the original constraints)
+            s2.add(self.pc)
+            if c is not None:
+                s2.add(c)
+            r = s2.check()
+            self.model_solver = s2
         dt = time.time() - t
         self.stats['solver_s'] += dt
         self.stats[kind] += 1
@@ -215,7 +234,19 @@ class Engine:
             self.stats['unsat'] += 1
             return False
         self.stats['unknown'] += 1
-        raise Inconclusive('solver returned unknown (%s) after %.1fs' % (self.solver.reason_unknown(), dt))
+        dd = os.environ.get('MIRSYM_DUMP_UNKNOWN')
+        if dd:
+            try:
+                os.makedirs(dd, exist_ok=True)
+                with open(os.path.join(dd, 'unknown-%d-%d.smt2' % (os.getpid(), self.stats['unknown'])), 'w') as fh:
+                    fh.write(self.model_solver.to_smt2())
+            except Exception:
+                pass
+        raise Inconclusive('solver returned unknown (%s) after %.1fs' % (self.model_solver.reason_unknown(), dt))
+
+    def model(self):
+        """model of the last satisfiable query"""
+        return self.model_solver.model()
 
     def add(self, c):
         if c is True:
@@ -316,9 +347,17 @@ class Engine:
             self.emit({'type': 'error', 'detail': 'child %d exited with status %d' % (pid, st)})
 
     def emit(self, rec):
-        if self.out is None:
+        if self.out is None or self.out_path_dir != self.out_dir:
+            self.close_out()
             self.out = open(os.path.join(self.out_dir, 'p.%d.jsonl' % os.getpid()), 'a')
+            self.out_path_dir = self.out_dir
         self.out.write(json.dumps(rec) + '\n')
+
+    def close_out(self):
+        if self.out:
+            self.out.flush()
+            self.out.close()
+            self.out = None
 
     def finish_process(self):
         """called once when the harness' path tree is exhausted"""
@@ -1329,7 +1368,7 @@ class Engine:
         """solve pc, return dict term-name -> python value for all inputs, plus evaluator"""
         if not self.check_sat(None, 'q_assert'):
             return None
-        return self.solver.model()
+        return self.model()
 
     def eval_in_model(self, m, v):
         if not is_sym(v):
